@@ -280,7 +280,41 @@ def rule_deriv_key(F, ev, R, config, rule="R-DERIV-KEY"):
             if not ok:
                 msg = "the key is an index into `%s`, not into the model parameter list" % short(space)[:80]
     R.add(rule, config, b.key, "inserted-key=index-in-model-list", ok, "" if ok else msg, b.j["span"])
-    # the find predicate compares the name with the requested parameter
+    # … and it is the index of the parameter that was NAMED: the insertion is reached only under a search of the model
+    # list that succeeded with `element == requested name` among its conjuncts (string equality, nothing weaker)
+    if len(ins) == 1:
+        import tab
+        e = ins[0]
+        envs = []
+        x = e.env
+        while x is not None:
+            envs.append(x)
+            x = getattr(x, "parent", None)
+        envs.reverse()
+        ch = tab.chain_of(e, F) or []
+        L = logic.Logic(ev)
+        name = ("param", b.key, 2)
+        okn = False
+        seen = []
+        if len(ch) == len(envs):
+            for (bd, blk), en in zip(ch, envs):
+                stack = list(L.conditions_at(bd, en, blk))
+                while stack:
+                    f = stack.pop()
+                    if f[0] == "and":
+                        stack.extend(f[1])
+                        continue
+                    if f[0] != "exists":
+                        continue
+                    seen.append(logic.show_f(f)[:160])
+                    if model_list is None or logic.canon_index(f[1]) != logic.canon_index(model_list):
+                        continue
+                    cs = f[2][1] if f[2][0] == "and" else (f[2],)
+                    if any(c[0] == "rel" and c[1] == "Eq" and set((c[2], c[3])) == {("item", f[1]), name} for c in cs):
+                        okn = True
+        R.add(rule, config, b.key, "inserted-key-is-the-named-parameter", okn,
+              "" if okn else "the derivative is stored under the index of a model parameter that need not BE the requested one: the search "
+              "that yields the index is `%s` (expected: element == requested name)" % (seen[:2] or "not found"), b.j["span"])
     # (2) lookup key in eval_partial_deriv is the index argument, zero-initialised matrix (the lookup and the
     #     allocation may sit in the method, in a closure it passes on, or in a helper: effects)
     import effects as fx
@@ -302,7 +336,7 @@ def rule_deriv_key(F, ev, R, config, rule="R-DERIV-KEY"):
             v = allocs[0].args[-1]
             ok = v[0] == "call" and v[1].endswith("Zero::zero")
         R.add(rule, config, eb.key, "derivative-matrix-starts-zero", ok, "" if ok else "columns of functions that do not depend on the parameter are not guaranteed to be zero", eb.j["span"])
-    R.floor(rule, config, 3, "insert key, lookup key, zero init")
+    R.floor(rule, config, 4, "insert key (index space, named parameter), lookup key, zero init")
 
 
 def checking_helper(F):
